@@ -731,7 +731,24 @@ def build_package(spec):
     exts = [build_ext(d) for d in spec["exts"]]
     if spec.get("link") is not None and mods and exts:
         _use_bundled(mods[0], exts, spec["link"])
+    if spec.get("reuse") and mods:
+        _reuse_indices(mods[-1])
     return Package(mods, exts)
+
+
+def _reuse_indices(h):
+    """the module is edited before it is packed: two nodes are deleted and a function is defined afterwards, so that the
+    FuncDefn takes the larger freed index and its Input the smaller one — every freed index is in use again and a child
+    has a smaller index than its parent (seeded change C09-14: a hierarchy walk that falls back to index order when no
+    index is vacant)"""
+    from hugr import ops, tys, val
+    from hugr.build.dfg import DfBase
+
+    cs = [h.add_const(val.TRUE), h.add_const(val.FALSE), h.add_const(val.Unit)]
+    h.delete_node(cs[0])
+    h.delete_node(cs[1])
+    fb = DfBase.new_nested(ops.FuncDefn("after_reuse", [tys.Bool], []), h, h.root)
+    fb.set_outputs(fb.inputs()[0])
 
 
 def _use_bundled(h, exts, seed):
@@ -947,6 +964,8 @@ def _rand_pkg_spec(rng, cfgs=None):
     spec = {"k": "pkg", "mods": mods, "exts": exts, "cfgs": cfgs}
     if mods and exts and rng.random() < 0.5:
         spec["link"] = rng.randrange(1 << 30)
+    if mods and rng.random() < 0.3:
+        spec["reuse"] = True
     return spec
 
 
